@@ -124,6 +124,7 @@ def run(ctx):
            "VERIF_DUP_PATHS": os.environ.get("VERIF_DUP_PATHS", "0")}
     rc, o = ctx.go_overlay_test("internal/mvs", base.harness_files(), "^TestVerifC11$", env, timeout=1500)
     recs = base.read_jsonl(out)
+    ctx.log("proofs checked: %s; harness finished (exit %d, %d records)" % (ok, rc, len(recs)))
     if rc != 0:
         ctx.log(o[-3000:])
         cc = base.crashed_case(recs)
